@@ -160,16 +160,24 @@ def generate(seed, idx, tier):
     # optional columns: JSON-encoded objects (decoded through the module-level
     # codec cache) and a timezone-aware timestamp
     extras = drng.choice(([], ['j'], ['tz'], ['j', 'tz']))
+    # built by one write, or row group by row group through appends whose
+    # categorical column carries its own labels each time (a different
+    # dictionary page per row group)
+    build = drng.choice(('single', 'appended'))
     mode = 'write' if rng.random() < 0.12 else 'read'
     cfg = rng.choice(('A', 'B', 'B'))
     nthreads = rng.choice((2, 2, 3, 3, 4, 4, 4, 6, 8, 16))
     threads = []
     if mode == 'read':
         for _ in range(nthreads):
-            threads.append([gen_op(rng, cfg, nrg, nrows, layout == 'hivep',
-                                   knobs['v2'] or knobs['page'] is not None,
-                                   extras)
-                            for _ in range(rng.choice((1, 1, 2, 3)))])
+            ops = [gen_op(rng, cfg, nrg, nrows, layout == 'hivep',
+                          knobs['v2'] or knobs['page'] is not None, extras)
+                   for _ in range(rng.choice((1, 1, 2, 3)))]
+            if rng.random() < 0.3:
+                # the same call again (a memoised answer, if any, is used)
+                i = rng.randrange(len(ops))
+                ops.insert(i + 1, copy.deepcopy(ops[i]))
+            threads.append(ops)
     else:
         nthreads = min(nthreads, 6)
         how = rng.choice(('part', 'part', 'partitioned'))
@@ -190,8 +198,10 @@ def generate(seed, idx, tier):
     return {'prop': PROP, 'seed': seed, 'idx': idx, 'tier': tier,
             'knobs': knobs, 'layout': layout, 'nrg': nrg, 'per': per,
             'codec': codec, 'vseed': vseed, 'extras': extras,
+            'build': build,
             'mode': mode, 'cfg': cfg, 'threads': threads,
-            'strategy': strategy, 'sched_seed': srng.randrange(2 ** 31)}
+            'strategy': strategy, 'sched_seed': srng.randrange(2 ** 31),
+            'conc_first': srng.random() < 0.5}
 
 
 # ------------------------------------------------------------------- dataset
@@ -223,7 +233,7 @@ _DS_CACHE = {}
 def dataset_key(case):
     return json.dumps([case['layout'], case['nrg'], case['per'],
                        case['codec'], case['vseed'], case['knobs'],
-                       case.get('extras')],
+                       case.get('extras'), case.get('build')],
                       sort_keys=True)
 
 
@@ -249,12 +259,25 @@ def build_dataset(case, fs):
     df['i'] = (df['i'] % 101 - 50).astype('int32')
     layout = case['layout']
     path = '/w/ds.parq' if layout == 'simple' else D.DS
-    D.do_write(fs, path, df, {'codec': case['codec'], 'rgo': case['per'],
-                              'stats': True},
-               'simple' if layout == 'simple' else 'hive',
-               ['p'] if layout == 'hivep' else [],
-               extra={'object_encoding': {'j': 'json', 's': 'utf8'}}
-               if 'j' in case.get('extras', ()) else None)
+    scheme = 'simple' if layout == 'simple' else 'hive'
+    parts = ['p'] if layout == 'hivep' else []
+    extra = {'object_encoding': {'j': 'json', 's': 'utf8'}} \
+        if 'j' in case.get('extras', ()) else None
+    opts = {'codec': case['codec'], 'rgo': case['per'], 'stats': True}
+    if case.get('build') != 'appended':
+        D.do_write(fs, path, df, opts, scheme, parts, extra=extra)
+        return path
+    per = case['per']
+    for r in range(case['nrg']):
+        piece = df.iloc[r * per:(r + 1) * per].reset_index(drop=True)
+        tag = str((case['vseed'] + r) % 9973)
+        piece['c'] = piece['c'].cat.rename_categories(
+            lambda x: x + tag)
+        if r == 0:
+            D.do_write(fs, path, piece, opts, scheme, parts, extra=extra)
+        else:
+            D.do_append(fs, path, piece, dict(opts, entry='write'), scheme,
+                        parts)
     return path
 
 
@@ -381,28 +404,39 @@ def execute(case):
             return res
         if case['mode'] == 'write':
             return execute_writers(case, fs, path, res, violation, bump)
-        # ---- solo phase: every distinct operation alone on a fresh handle
+        # ---- solo phase: every distinct operation alone on a fresh handle.
+        # In half of the runs it comes *after* the concurrent phase, so that
+        # the threads are the first in this process to touch the dataset:
+        # anything the library memoises per process (decoded pages, codecs,
+        # parsed paths) is then filled in concurrently, not beforehand.
         solo = {}
         horizon = 0
-        for ops in case['threads']:
-            for op in ops:
-                key = json.dumps(op, sort_keys=True)
-                if key in solo:
-                    continue
-                if key in solo_cache:
-                    solo[key] = solo_cache[key]
-                    continue
-                try:
-                    solo[key] = ('ok', canon_result(
-                        run_op(D.ParquetFile(path, fs=fs), op)))
-                except Exception as e:
-                    solo[key] = ('exc', type(e).__name__)
-                solo_cache[key] = solo[key]
-        if any(v[0] == 'exc' for v in solo.values()):
-            # an operation that fails alone is outside C20's statement
-            res.update(verdict='discard', digest='discard', evals=0,
-                       discard='operation fails sequentially: %r'
-                       % [k[:80] for k, v in solo.items() if v[0] == 'exc'])
+        conc_first = bool(case.get('conc_first'))
+
+        def solo_phase():
+            for ops in case['threads']:
+                for op in ops:
+                    key = json.dumps(op, sort_keys=True)
+                    if key in solo:
+                        continue
+                    if key in solo_cache:
+                        solo[key] = solo_cache[key]
+                        continue
+                    try:
+                        solo[key] = ('ok', canon_result(
+                            run_op(D.ParquetFile(path, fs=fs), op)))
+                    except Exception as e:
+                        solo[key] = ('exc', type(e).__name__)
+                    solo_cache[key] = solo[key]
+            if any(v[0] == 'exc' for v in solo.values()):
+                # an operation that fails alone is outside C20's statement
+                res.update(verdict='discard', digest='discard', evals=0,
+                           discard='operation fails sequentially: %r'
+                           % [k[:80] for k, v in solo.items()
+                              if v[0] == 'exc'])
+                return False
+            return True
+        if not conc_first and not solo_phase():
             return res
         # ---- concurrent phase on one shared handle
         D.reset_library_caches()
@@ -415,6 +449,10 @@ def execute(case):
         strategy = case['strategy']
         if 'schedule' in case:
             sch = S.Scheduler(('replay', case['schedule']))
+        elif strategy[0] == 'pct' and conc_first:
+            sch = S.Scheduler(('pct', strategy[1], 4000 * sum(
+                len(o) for o in case['threads'])), seed=case['sched_seed'],
+                nthreads=len(case['threads']))
         elif strategy[0] == 'pct':
             c = S.Counter()
             c.run(codes(), lambda: [run_op(D.ParquetFile(path, fs=fs), op)
@@ -443,6 +481,10 @@ def execute(case):
             bump(cnt, 'step_cap_discards')
             return res
         schedule = sch.schedule()
+        if conc_first:
+            bump(cnt, 'concurrent_phase_before_solo_phase')
+            if not solo_phase():
+                return res
         # (2) nobody raised, (1) everybody got the solo value
         for t, ops in enumerate(case['threads']):
             r = results[t]
